@@ -2,16 +2,21 @@
 (* Step G for C05: for every true position of the point families (now with *)
 (* the surface zone edges) RSLOTS (message, reference) pairs.  One vector:  *)
 (*   [family, index, slot, kind (0 air / 1 surf), parity, L, M, YZ, XZ,     *)
-(*    Lref, Mref, slat, slon]                                               *)
+(*    Lref, Mref, slat, slon, plan]                                         *)
 (* The reference is the lattice point (Lref, Mref) unless slat / slon > 0   *)
 (* select one of the harness's special floats (-0.0, subnormals, 1e6, ...). *)
-(* Reference plan per slot (all index arithmetic, no randomness but the     *)
-(* seeded points):                                                          *)
+(* plan = class * 10000 + a * 100 + b is carried for coverage counts only.  *)
+(* Reference plan per slot.  Kind/parity rotate with x + r; the class       *)
+(* rotates with x \div 4 + 3 r, so that every (kind, parity, class) occurs; *)
+(* bearing, radius and sub-case are seeded hashes of (x, r):                *)
 (*   near   bearing b/16, radius 15..99 % of the half zone in each          *)
 (*          coordinate, longitude wrapped into [-180,180) or left beyond    *)
 (*   far    105 % .. 4000 % of the half zone                                *)
-(*   misc   special floats, a pole as reference, the true longitude +-360   *)
-(*          degrees, the true position itself, the zone edge below it       *)
+(*   misc   special floats (latitude, longitude or both), the pole of the   *)
+(*          same / the other hemisphere, the true longitude +-360 degrees,  *)
+(*          the true position itself, the latitude-zone edge below it, the  *)
+(*          longitude-zone edge west of it, a random point of the globe,    *)
+(*          exactly half a zone away in latitude / in longitude             *)
 EXTENDS Gen_CPRPoints, Json
 
 CONSTANTS RSLOTS, CHUNK
@@ -19,31 +24,47 @@ Fams05 == {1, 2, 3, 4, 5, 6, 7, 8, 9}
 Slice == atoi(IOEnv.GEN_SLICE)
 NSlices == atoi(IOEnv.GEN_NSLICES)
 
+NSPECIAL == 12     \* entries 1..12 of SPECIAL in harness/rsdriver/src/bin/c04.rs
+NSUB == 13
 ClsTab == <<"near", "near", "near", "far", "near", "misc", "near", "far", "near", "misc">>
 
-Ref(kind, i, L, M, x, r) ==    \* <<Lref, Mref, slat, slon>>
-  LET cls == ClsTab[((x + 3 * r) % 10) + 1]
-      b == (x * 5 + r * 3) % 16
-      sp == 1 + (x % 8)
+Ref(kind, i, L, M, x, r) ==    \* <<Lref, Mref, slat, slon, plan>>
+  LET q == x * RSLOTS + r
+      cls == ClsTab[(((x \div 4) + 3 * r) % 10) + 1]
+      b == Rnd16(q, 60) % 16
+      sp == 1 + (Rnd16(q, 64) % NSPECIAL)
+      sp2 == 1 + (Rnd16(q, 65) % NSPECIAL)
+      sg == IF Rnd16(q, 66) % 2 = 0 THEN 1 ELSE -1
   IN  CASE cls = "near" ->
-             LET pct == NearPct[((x + 2 * r) % 6) + 1]
+             LET k == Rnd16(q, 61) % 6
+                 pct == NearPct[k + 1]
                  m == M + OffM(kind, i, L, b, pct)
-             IN  << Clamp(L + OffL(kind, i, b, pct)), IF (x + r) % 2 = 1 THEN WrapM(m) ELSE m, 0, 0 >>
+             IN  << Clamp(L + OffL(kind, i, b, pct)),
+                    IF Rnd16(q, 62) % 2 = 1 THEN WrapM(m) ELSE m, 0, 0, 10000 + k * 100 + b >>
         [] cls = "far" ->
-             LET pct == FarPct[((x + r) % 5) + 1]
-             IN  << Clamp(L + OffL(kind, i, b, pct)), WrapM(M + OffM(kind, i, L, b, pct)), 0, 0 >>
+             LET k == Rnd16(q, 61) % 5
+                 pct == FarPct[k + 1]
+             IN  << Clamp(L + OffL(kind, i, b, pct)), WrapM(M + OffM(kind, i, L, b, pct)), 0, 0,
+                    20000 + k * 100 + b >>
         [] OTHER ->
-             LET sub == ((x \div 2) + r) % 8
+             LET sub == Rnd16(q, 63) % NSUB
                  nearL == Clamp(L + OffL(kind, i, b, 40))
                  nearM == WrapM(M + OffM(kind, i, L, b, 40))
-             IN  CASE sub = 0 -> << nearL, nearM, sp, 0 >>
-                   [] sub = 1 -> << nearL, nearM, 0, sp >>
-                   [] sub = 2 -> << nearL, nearM, sp, 1 + ((x \div 8) % 8) >>
-                   [] sub = 3 -> << IF L < 0 THEN 0 - QUARTER ELSE QUARTER, RandM(x, 40 + r), 0, 0 >>
-                   [] sub = 4 -> << Clamp(L + OffL(kind, i, b, 15)), M + P, 0, 0 >>
-                   [] sub = 5 -> << L, M, 0, 0 >>
-                   [] sub = 6 -> << ((LatX(kind, i, L) \div P) * P) \div (Z(i) * F(kind)), M, 0, 0 >>
-                   [] OTHER -> << Clamp(L - OffL(kind, i, b, 15)), M - P, 0, 0 >>
+                 n == NLon(kind, i, L)
+                 plan == 30000 + sub * 100 + (IF sub <= 2 THEN sp ELSE 0)
+             IN  CASE sub = 0 -> << nearL, nearM, sp, 0, plan >>
+                   [] sub = 1 -> << nearL, nearM, 0, sp, plan >>
+                   [] sub = 2 -> << nearL, nearM, sp, sp2, plan >>
+                   [] sub = 3 -> << IF L < 0 THEN 0 - QUARTER ELSE QUARTER, RandM(q, 40), 0, 0, plan >>
+                   [] sub = 4 -> << Clamp(L + OffL(kind, i, b, 15)), M + P, 0, 0, plan >>
+                   [] sub = 5 -> << L, M, 0, 0, plan >>
+                   [] sub = 6 -> << ((LatX(kind, i, L) \div P) * P) \div (Z(i) * F(kind)), M, 0, 0, plan >>
+                   [] sub = 7 -> << Clamp(L - OffL(kind, i, b, 15)), M - P, 0, 0, plan >>
+                   [] sub = 8 -> << nearL, ((LonX(kind, i, L, M) \div P) * P) \div (n * F(kind)), 0, 0, plan >>
+                   [] sub = 9 -> << RandL(q, 41), RandM(q, 42), 0, 0, plan >>
+                   [] sub = 10 -> << IF L < 0 THEN QUARTER ELSE 0 - QUARTER, RandM(q, 43), 0, 0, plan >>
+                   [] sub = 11 -> << Clamp(L + sg * HalfL(kind, i)), M, 0, 0, plan >>
+                   [] OTHER -> << L, M + sg * HalfM(kind, i, L), 0, 0, plan >>
 
 Vec(f, x, r) ==
   LET p == Pt(f, x)
@@ -54,7 +75,7 @@ Vec(f, x, r) ==
       i == c % 2
       ref == Ref(kind, i, L, M, x, r)
   IN  << f, x, r, c \div 2, i, L, M, YZ(kind, i, L), XZ(kind, i, L, M),
-         ref[1], ref[2], ref[3], ref[4] >>
+         ref[1], ref[2], ref[3], ref[4], ref[5] >>
 
 Emit(f, x) ==
   IF Valid(f, x) /\ x % NSlices = Slice
